@@ -34,7 +34,7 @@ def main():
             continue
         row = {}
         try:
-            for pid in ALL:
+            def one(pid):
                 rc, out = sh(['./check', pid, '--tier', 'quick'], cwd=ROOT)
                 v = [l for l in out.split('\n') if l.startswith('VIOLATION')]
                 kind = 'pass'
@@ -51,8 +51,17 @@ def main():
                 elif rc != 0:
                     kind = 'internal error (exit %d)' % rc
                     detail = out[-300:]
-                row[pid] = dict(result=kind, detail=detail)
                 sys.stderr.write('%s %s %s\n' % (name, pid, kind))
+                return pid, dict(result=kind, detail=detail)
+            # the targeted check first (it rebuilds the expander and the proc-macro from the patched tree), the others
+            # four at a time (the builds are behind locks, every check has its own scratch directories)
+            first = name[:3] if name[:3] in ALL else ALL[0]
+            pid, res = one(first)
+            row[pid] = res
+            from concurrent.futures import ThreadPoolExecutor
+            with ThreadPoolExecutor(max_workers=4) as ex:
+                for pid, res in ex.map(one, [p for p in ALL if p != first]):
+                    row[pid] = res
         finally:
             sh('git checkout -- .', cwd=REPO)
             sh('rm -rf replays', cwd=ROOT)
